@@ -616,7 +616,7 @@ func c05R6(c *Ctx, rule string) {
 			if calleeName(&call.Call) == "(net.Conn).Read" {
 				rd = call
 			}
-			if g := call.Call.StaticCallee(); g != nil && g.Name() == "recvDataFromRemote" {
+			if g := call.Call.StaticCallee(); isFn(g, "internal/multiplex", "Session.recvDataFromRemote") {
 				recvs = append(recvs, call)
 			}
 		}
